@@ -120,7 +120,7 @@ func (m *c12) appendProbe(name string, got []byte) *core.Violation {
 	if m.backing != nil && m.n < len(m.backing) {
 		slot = m.backing[m.n]
 	}
-	x := append(got, 0xA5, 0x5A)
+	x := append(got, 0xA5) // one byte: fits into any spare capacity, however small
 	_ = x
 	if b := m.z.Bytes(); !eq(b, m.data) {
 		return m.viol("append-clobbers-input", "appending to the slice returned by %s() changed Bytes()", name)
